@@ -23,11 +23,16 @@ import (
 
 func buildScenarios(c *vkit.Ctx) []e2e.Scenario {
 	var out []e2e.Scenario
-	n := c.N(2*len(e2e.Families), 18*len(e2e.Families))
+	n := c.N(3*len(e2e.Families), 18*len(e2e.Families))
 	for i := 0; i < n; i++ {
 		r := c.Rand("scenario", i)
 		fam := e2e.Families[i%len(e2e.Families)]
-		out = append(out, e2e.GenScenario(r, fam, i, e2e.Opt{}))
+		sc := e2e.GenScenario(r, fam, i, e2e.Opt{})
+		// every third round over the families runs at process level: run.Run itself, SIGTERM, a new process per generation
+		if (i/len(e2e.Families))%3 == 1 && fam != "overflow" {
+			sc.ProcessLevel = true
+		}
+		out = append(out, sc)
 	}
 	return out
 }
@@ -110,6 +115,7 @@ var anchors = []string{"input/tcplistener/tcplinelistener.go", "base/bsupport/lo
 	"output/baseoutput/clientworker.go", "output/baseoutput/clientsession.go", "output/fluentdforward/clientworker.go", "run/loader.go", "run/run.go"}
 
 func main() {
+	e2e.AgentProcMain() // never returns in an agent process
 	logger.SetLogLevel(logger.FatalLevel)
 	c := vkit.Start("C01", "exploration")
 	if c.Child != "" {
